@@ -70,6 +70,8 @@ type Opts struct {
 	// the first letter (t3 / T3); SameFileNames: now and then two files are added under one name.
 	CaseTwins     bool
 	SameFileNames bool
+	// UnnamedFiles: now and then a file is added under the empty name
+	UnnamedFiles bool
 	// Focus names one rarely generated construct that most templates of this case will contain
 	// (swarm testing: every run concentrates on one feature, so that rare features meet the
 	// schedules, histories and faults too).  "" = none; see Features.
@@ -588,7 +590,7 @@ func (x *g) msgBody(n int) []*Node {
 		case 0, 1:
 			out = append(out, &Node{K: "text", S: words[x.pick(len(words))] + " "})
 		case 2:
-			out = append(out, &Node{K: "text", S: []string{"<b>", "</b>", "<a href=\"x\">", "</a>", "<br/>", "<i class=\"k\">"}[x.pick(6)]})
+			out = append(out, &Node{K: "text", S: []string{"<b>", "</b>", "<a href=\"x\">", "</a>", "<br/>", "<i class=\"k\">", "<a href=\"y\" phname=\"link\">", "<span phname=\"emphasised_part\">", "</span>"}[x.pick(9)]})
 		default:
 			out = append(out, x.placeholder())
 		}
@@ -939,7 +941,7 @@ func (x *g) template(file int, ns, name string) *Template {
 
 // Features lists the constructs Opts.Focus can name.
 var Features = []string{"augment-into-map", "augment-empty", "augment-onto-empty", "data-expr-call", "msg-only-let", "msg-only-param", "push-onto-range", "push-onto-data", "map-literal-print",
-	"css-expr", "literal", "default-first-switch", "plural-msg", "ifempty", "ij", "global", "nested-let-call", "deep-nesting", "long-value"}
+	"css-expr", "literal", "default-first-switch", "plural-msg", "ifempty", "ij", "global", "nested-let-call", "deep-nesting", "long-value", "deep-calls", "phname-tag"}
 
 // FocusFor draws the focus of a case from its seed: none for two cases in five, otherwise one of
 // the Features.
@@ -1078,6 +1080,17 @@ func (x *g) focusNode() *Node {
 			}
 		}
 		return n
+	case "deep-calls":
+		// the self-recursive template called forty levels deep
+		for _, s := range x.sigs {
+			if len(s.params) == 1 && s.params[0].Name == "n" && s.cost == 30 {
+				return &Node{K: "call", Tmpl: x.callName(s), Args: []*Arg{{Key: "n", E: fmt.Sprint(30 + x.pick(15))}}}
+			}
+		}
+	case "phname-tag":
+		if x.o.Msgs {
+			return &Node{K: "msg", S: "tags with names", Body: []*Node{{K: "text", S: "click "}, {K: "text", S: "<a href=\"u\" phname=\"the_link\">"}, {K: "text", S: "here"}, {K: "text", S: "</a>"}, {K: "text", S: " <b phname=\"bold\">now</b>"}}}
+		}
 	case "long-value":
 		// an escaped value longer than the small buffers code tends to have (64, 256, 4096 bytes), with
 		// special characters at both ends and in the middle
@@ -1149,6 +1162,9 @@ func Generate(seed uint64, o Opts) *Case {
 		if o.SameFileNames && i > 0 && x.chance(0.15) {
 			f.Name = files[x.pick(i)].Name
 		}
+		if o.UnnamedFiles && x.chance(0.2) {
+			f.Name = ""
+		}
 		files[i] = f
 		for j, n := 0, 1+x.pick(o.MaxTemplates); j < n; j++ {
 			name := fmt.Sprintf("t%d", tn)
@@ -1193,7 +1209,7 @@ func Generate(seed uint64, o Opts) *Case {
 	for k := len(slots) - 1; k >= 0; k-- {
 		s := slots[k]
 		var t *Template
-		if x.chance(0.06) {
+		if x.chance(0.06) || (x.o.Focus == "deep-calls" && k == len(slots)-1) {
 			t = x.recursive(s.name)
 		} else {
 			t = x.template(s.file, files[s.file].Namespace, s.name)
